@@ -51,3 +51,45 @@ package crypto
 //@   requires k != nil
 //@ func (*Ed25519PubKey).Verify
 //@   requires k != nil
+
+// ---------------------------------------------------------------------------------------------
+// C13: one-to-one derivation.  The key-derivation context of GenerateSharedKey is built from exactly
+// the two raw Ed25519 identities (own public key and the other party's public key) - not from any
+// value several identities map to - and from nothing else; the joined context does not depend on
+// which of the two parties computes it (buildSortedContext orders its arguments).
+//@ ghost ctxA Slice stable
+//@ ghost ctxB Slice stable
+//@ ghost ctxBuilt Bool stable
+//@ uf bytesCmp(Slice, Slice) Int
+//@ package bytes
+//@ func Compare
+//@   modifies nothing
+//@   ensures result == bytesCmp(arg0, arg1)
+//@ package github.com/anyproto/any-sync/util/crypto
+//@ func buildSortedContext
+//@   sets ctxA = a
+//@   sets ctxB = b
+//@   sets ctxBuilt = true
+//@ func Ed25519PrivateKeyToCurve25519
+//@   modifies nothing
+//@ func Ed25519PublicKeyToCurve25519
+//@   modifies nothing
+//@ package golang.org/x/crypto/curve25519
+//@ func X25519
+//@   modifies nothing
+//@ package golang.org/x/crypto/hkdf
+//@ func New
+//@   modifies nothing
+//@ package io
+//@ func ReadFull
+//@   modifies object arg1 kinds uint8
+//@ package github.com/anyproto/go-slip21
+//@ func *
+//@   modifies nothing
+//@ package github.com/anyproto/any-sync/util/crypto
+//@ func iface crypto.PrivKey.Raw
+//@   pure
+//@ func GenerateSharedKey
+//@   requires aPrivKey != nil && bPubKey != nil
+//@   requires !ctxBuilt
+//@   ensures [context_binds_raw_identities] result1 == nil ==> ctxBuilt && ctxA == aPrivKey.GetPublic().Raw() && ctxB == bPubKey.Raw()
